@@ -179,7 +179,48 @@ func (ex *Exec) VerifyFunc(fn *ssa.Function, fc *contract.Func, cs *contract.Cas
 		ex.frameFn = fn
 	}
 	defer func() { ex.entryOld = nil; ex.entryArgs = nil }()
+	if fc != nil && len(fc.Reads) > 0 {
+		ex.readTrack = map[string]bool{}
+		defer func() { ex.readTrack = nil }()
+	}
 	outs := ex.Run(fn, st, args, nil)
+	if fc != nil && len(fc.Reads) > 0 {
+		// the body may only touch the heap fields named in the reads clause (its result is
+		// used as a function of its arguments and of those fields)
+		_, _ = ex.readArgs(st, fn, fc)
+		declared := map[string]bool{}
+		sc := &Scope{St: st, Vars: map[string]Val{}, Pkg: fn.Pkg}
+		for _, loc := range fc.Reads {
+			if root, names, t, ok := ex.typeLoc(sc, loc); ok {
+				var ls []leaf
+				leaves(t, nil, "", &ls)
+				for _, l := range ls {
+					n := names
+					if l.Names != "" {
+						n += "." + l.Names
+					}
+					for _, suf := range leafSuffixes(l.Type) {
+						declared[ex.heapKey(root, n, suf)] = true
+					}
+				}
+			}
+		}
+		var extra []string
+		for k := range ex.readTrack {
+			if !declared[k] {
+				extra = append(extra, k)
+			}
+		}
+		sort.Strings(extra)
+		goal := smt.True
+		if len(extra) > 0 {
+			goal = smt.False
+		}
+		ex.AddObl(st, "frame", "reads/only-declared-fields", ex.pos(fn.Pos()), goal)
+		if len(extra) > 0 && ex.mute == 0 {
+			ex.Obls[len(ex.Obls)-1].Note2 = "heap fields touched but not in the reads clause: " + strings.Join(extra, ", ")
+		}
+	}
 	nret := 0
 	for _, o := range outs {
 		if o.Panic {
